@@ -332,7 +332,7 @@ type Machine struct {
 	yieldCh  chan *G
 	nextGID  int
 	nextCh   int
-	clock    int64
+	clock    *Term // ghost clock in ns (64-bit term; constant unless symbolic durations are in play)
 	timers   []*timerV
 	aborting bool
 
@@ -418,6 +418,7 @@ func runPath(eng *Engine, cfg Config, fn *ssa.Function, prefix []Decision, solve
 		traceW:      os.Stderr,
 		harnessName: cfg.Harness,
 	}
+	m.clock = m.tf.Const(64, 0)
 	m.pool = newPoolModel()
 	m.raceInit()
 	m.race.on = cfg.Params["norace"] != 1
@@ -443,7 +444,11 @@ func runPath(eng *Engine, cfg Config, fn *ssa.Function, prefix []Decision, solve
 	res.Steps = m.steps
 	res.Decisions = len(m.log)
 	res.Alts = m.alts
-	res.Elapsed = m.clock
+	if m.clock.IsConst() {
+		res.Elapsed = m.clock.SVal()
+	} else {
+		res.Elapsed = -1
+	}
 	for id := range m.reached {
 		res.Reached = append(res.Reached, id)
 	}
